@@ -1,11 +1,17 @@
 (* C34 -- rational instance of the Lanczos model and the check functions of the correspondence. *)
-From Coq Require Import ZArith QArith Qabs Qminmax List Bool.
+From Coq Require Import ZArith QArith Qabs Qminmax Qround List Bool.
 Import ListNotations.
 Require Import NV.C34.Model.
 Local Open Scope Q_scope.
 
+(* Scalars: rationals kept on the dyadic grid 2^-160 after every multiplication (the implementation's
+   floats are dyadic; only the inverse norms and products leave the grid).  Exact rationals would be
+   a ring but their size grows by a constant FACTOR per Lanczos step (degree of the recurrence in the
+   inverse norms); the comparison with float64 is by tolerance 1e-8 anyway, the rounding is 2^-160. *)
+Definition grid : positive := (2 ^ 160)%positive.
+Definition qround (x : Q) : Q := Qred (Qfloor (x * inject_Z (Zpos grid)) # grid).
 Definition qadd (a b : Q) := Qred (a + b).
-Definition qmul (a b : Q) := Qred (a * b).
+Definition qmul (a b : Q) := qround (a * b).
 Definition qsub (a b : Q) := Qred (a - b).
 Definition qv := list Q.
 Fixpoint qvsub (a b : qv) : qv := match a, b with x :: r, y :: s => qsub x y :: qvsub r s | _, _ => [] end.
@@ -33,7 +39,7 @@ Fixpoint run_chk (n : nat) (A : list qv) (tol : Q) (bs : list Q) (s : qstate) : 
     | None => (false, s)
     | Some (_, w) =>
       let ok := close tol (qdot w w) (b * b) in
-      let '(ok', s') := run_chk n A tol r (qstep n A b (Qred (/ b)) s) in (ok && ok', s')
+      let '(ok', s') := run_chk n A tol r (qstep n A b (qround (/ b)) s) in (ok && ok', s')
     end
   end.
 
@@ -45,10 +51,10 @@ Definition lanczos_case (n : nat) (A : list qv) (v1 : qv) (bs : list Q) (tol : Q
   ok && vclose tol (rev (l_al Q qv s)) alphas && mclose tol (rev (l_vs Q qv s)) basis.
 
 (* breakdown: after the steps bs the next residual vanishes (norm^2 <= tol) *)
-Definition breakdown_case (n : nat) (A : list qv) (v1 : qv) (bs : list Q) (tol : Q) (last_alpha : Q) : bool :=
+Definition breakdown_case (n : nat) (A : list qv) (v1 : qv) (bs : list Q) (tol tol0 : Q) (last_alpha : Q) : bool :=
   let '(ok, s) := run_chk n A tol bs (linit Q qv v1) in
   ok && match qresidual n A s with
-        | Some (a, w) => Qle_bool (qdot w w) tol && close tol a last_alpha
+        | Some (a, w) => Qle_bool (qdot w w) tol0 && close tol a last_alpha
         | None => false end.
 
 (* ELBO bookkeeping (eigsh): lower_error and the ELBO samples from the logs of the eigenvalues *)
